@@ -51,7 +51,8 @@ Definition xval_eq (a b : xval) : bool := xval_eqb (xsize a + xsize b) a b.
 Definition exn_eqb (a b : exn) : bool :=
   match a, b with
   | KeyError, KeyError | TypeError, TypeError | AttributeError, AttributeError | ValueError, ValueError
-  | FileNotFoundError, FileNotFoundError | UnicodeDecodeError, UnicodeDecodeError | OutOfFuel, OutOfFuel => true
+  | FileNotFoundError, FileNotFoundError | UnicodeDecodeError, UnicodeDecodeError | OutOfFuel, OutOfFuel
+  | JSONDecodeError, JSONDecodeError | URLError, URLError => true
   | _, _ => false
   end.
 
@@ -59,7 +60,9 @@ Definition exn_eqb (a b : exn) : bool :=
 
 Inductive impl_out :=
 | ILoaded (mods procs ifaces types vars : list xval)   (* the five ext* lists of the project *)
-| IContained                                            (* no exception, "Could not open external URL" printed *)
+| IContained                                            (* no exception, "Could not open external URL" printed,
+                                                           the five lists empty *)
+| IContainedDirty                                       (* ... but something was left in the lists *)
 | IRaised (e : exn)
 | IRaisedOther.
 
@@ -76,6 +79,7 @@ Inductive case :=
 | CExport (A : aproject) (impl : json) (pages : list str)
 | CRound (A : aproject) (b : base) (impl : impl_out)
 | CLoad (src : source) (mutated : bool) (impl : impl_out) (B : blocal) (qs : list (query * answer))
+| CLoadSeq (srcs : list source) (impl : impl_out)       (* several external projects in one run *)
 | CJoin (b : base) (rel : str) (impl : str).
 
 Definition lists_of (tops : list xval) : list (list xval) :=
@@ -168,17 +172,9 @@ Definition shadow_region (B : blocal) (tops : list xval) (q : query) : bool :=
   | _ => false
   end.
 
-Definition source_region (src : source) (mutated : bool) : nat :=
-  match src with
-  | SLocalAbs _ => 4
-  | SLocal _ LMissing => 2
-  | SLocal _ LUndecodable | SRemote _ RUndecodable => 5
-  | SLocal _ (LJson _) | SRemote _ (RJson _) => if mutated then 3 else 0
-  | _ => 0
-  end.
-
+(* the run goes on and a failed load left nothing behind *)
 Definition impl_survives (i : impl_out) : bool :=
-  match i with IRaised _ | IRaisedOther => false | _ => true end.
+  match i with IRaised _ | IRaisedOther | IContainedDirty => false | _ => true end.
 
 Definition judge (c : case) : nat :=
   match c with
@@ -201,7 +197,9 @@ Definition judge (c : case) : nat :=
     let lf_out := existsb (fun qa => negb (shadow_region B tops (fst qa))) lf_bad in
     verdict (negb (out_matches o impl) || bad_q)
             (negb (impl_survives impl) || negb (Nat.eqb (length lf_bad) 0))
-            (if negb (impl_survives impl) then source_region src mutated
+            (if negb (impl_survives impl) then 0
              else if negb (Nat.eqb (length lf_bad) 0) && negb lf_out then 6 else 0)
+  | CLoadSeq srcs impl =>
+    verdict (negb (out_matches (OLoaded (load_all srcs)) impl)) (negb (impl_survives impl)) 0
   | CJoin b rel impl => verdict (negb (str_eqb (rebase b rel) impl)) false 0
   end.
